@@ -88,6 +88,9 @@ type wobs struct {
 	Diff      string            `json:"diff"`      // first difference outside recorded values
 	Added     []kv              `json:"added"`     // pom: dependencies inserted by the writer
 	Lost      []string          `json:"lost"`      // pom: recorded values that kept their text but lost inner tokens (comments)
+	PlgWant   string            `json:"plg_want"` // pom: version the managed plugin's dependency was updated to ("" = not addressed)
+	PlgText   string            `json:"plg_text"` // pom: new text of that dependency's <version>, if it changed
+	PlgRead   string            `json:"plg_read"` // pom: its version when the output is read back (plugin block present)
 	SameBytes bool              `json:"same_bytes"`
 	Written   bool              `json:"written"`
 	In        string            `json:"in,omitempty"`
